@@ -24,7 +24,7 @@ TIE_OPS = ("max", "min")
 def gen_cases(tier, seed):
     rng = gen.rng_for(seed, "c01", tier)
     cases = []
-    budget = {"quick": 220, "thorough": 12000}[tier]
+    budget = {"quick": 400, "thorough": 12000}[tier]
     for name, op in OPS.items():
         g = catalog.grid(name, tier, rng)
         per = []
